@@ -497,7 +497,12 @@ func (c *vCase) finish() {
 func vCount(q, th int) func(string) int {
 	return func(tier string) int {
 		if tier == "thorough" {
-			return th
+			// four times the count each monitor was first sized with; VERIF_THOROUGH_MULT scales it further
+			m := 4
+			if v, err := strconv.Atoi(os.Getenv("VERIF_THOROUGH_MULT")); err == nil && v > 0 {
+				m = v
+			}
+			return m * th
 		}
 		// the quick tier runs three times the count each monitor was first sized with (it still takes seconds)
 		return 3 * q
